@@ -49,6 +49,10 @@ pub struct NCase {
     /// memory layout: 0 = code + rw + ro + stack arenas, 1 = code only, 2 = code + rw
     #[serde(default)]
     pub layout: u8,
+    /// > 0: `code` is a whole program image placed at `rip`; run up to this many instructions in
+    /// lock-step with the CPU (C04 programs)
+    #[serde(default)]
+    pub steps: u32,
 }
 
 impl NCase {
